@@ -504,9 +504,18 @@ func run(e *core.Env) {
 					copy(ctx[:16], unknown.IP.AsSlice())
 					m.PutUint64(ctx[16:24], uint64(af.SequenceTime().UnixMilli()))
 					copy(ctx[24:], af.AuthData())
-					depth := []int{2, 30, 60, 90, 98}[tp.Intn(5)]
+					depth := []int{1, 2, 3, 30, 60, 90, 98}[tp.Intn(7)]
 					big := tp.Chance(2, 3)
 					var nested []byte
+					// validly signed records around a malformed innermost attachment
+					switch tp.Intn(5) {
+					case 0:
+						nested = tp.Bytes(1 + tp.Intn(63)) // shorter than a signature
+					case 1:
+						nested = tp.Bytes(64 + tp.Intn(3)) // signature-sized, (almost) no record
+					case 2:
+						nested = mutateBytes(tp, tp.Bytes(70+tp.Intn(200)))
+					}
 					for i := 0; i < depth; i++ {
 						signer := ident.Get(ident.Routable, 40+i)
 						if i == depth-1 {
